@@ -15,7 +15,8 @@ from . import facts as factsmod
 from .ir import AnalysisBroken
 
 VERIF = factsmod.VERIF
-EVIDENCE = os.path.join(VERIF, "evidence")
+# registered commands never set HFSM2_EVIDENCE; the self-test tools do, so that runs against scratch trees leave evidence/ alone
+EVIDENCE = os.environ.get("HFSM2_EVIDENCE") or os.path.join(VERIF, "evidence")
 REPLAY = os.path.join(EVIDENCE, "replay")
 KNOWN = os.path.join(VERIF, "known_findings.json")
 
